@@ -197,11 +197,32 @@ func Catch(f func()) (pv any, site string) {
 				panic(r)
 			}
 			pv = r
-			site = repoFrame(string(debug.Stack()))
+			LastStack = string(debug.Stack())
+			site = repoFrame(LastStack)
 		}
 	}()
 	f()
 	return nil, ""
+}
+
+// LastStack is the stack of the panic most recently recovered by Catch (harnesses use it to tell a
+// panic raised by their own types' methods from one raised by the library).
+var LastStack string
+
+// PanicOrigin returns the function of the innermost non-runtime frame of the last recovered panic.
+func PanicOrigin() string {
+	lines := strings.Split(LastStack, "\n")
+	for i := 0; i+1 < len(lines); i++ {
+		fn := lines[i]
+		if strings.HasPrefix(fn, "\t") || strings.HasPrefix(fn, "goroutine ") || fn == "" {
+			continue
+		}
+		if strings.HasPrefix(fn, "runtime.") || strings.HasPrefix(fn, "runtime/debug.") || strings.HasPrefix(fn, "panic(") || strings.Contains(fn, "explore.Catch") {
+			continue
+		}
+		return fn
+	}
+	return ""
 }
 
 // repoFrame extracts the top-most frame of the stack that lies inside the
